@@ -537,8 +537,14 @@ def main(argv):
                     if not mine:
                         # only other properties' predicates fired on this history; if the model
                         # disagrees with the implementation as well, this property is no longer
-                        # shown to hold on it
+                        # shown to hold on it -- unless the disagreement comes after a recorded
+                        # known finding (of whatever property) was triggered in this history:
+                        # the model is not required to follow the implementation past a known defect
+                        kf_steps = [st for (k, st) in v0.get("kinds", [])
+                                    if any(f["signature"] == k for f in known.get("findings", []))]
                         for (k, st) in v0.get("kinds", []):
+                            if k.startswith("mismatch:") and any(st >= ks for ks in kf_steps):
+                                continue
                             if k.startswith("mismatch:"):
                                 problems.append(("mismatch", "model and implementation disagree (harness %s, step %d, %s)" % (
                                     h["cmd"], st, k[len("mismatch:"):]),
